@@ -145,9 +145,11 @@ def _is_open(ctx, a, c):
 # the world
 # ---------------------------------------------------------------------------------------------------
 class World:
-    def __init__(self, ctx, fns, cont):
+    def __init__(self, ctx, fns, cont, max_idle=8):
         self.ctx, self.fns = ctx, fns
-        inner = Agg("struct:PoolInner", [config(none(), z3.BitVecVal(8, 64), cont), HashMapV(), HashMapV(), HashMapV()])
+        self.cont = cont
+        self.max_idle = max_idle
+        inner = Agg("struct:PoolInner", [config(none(), z3.BitVecVal(max_idle, 64), cont), HashMapV(), HashMapV(), HashMapV()])
         self.shared = SharedV(inner, "pool")
         tm = HashMapV()
         self.keys = SharedV(Agg("struct:TokenMap", [z3.BitVecVal(1, 64), tm]), "keys")
@@ -314,6 +316,12 @@ class World:
                 msg = f"open connection {cid} was dropped when it was released instead of being kept for reuse or handed to a waiting request"
                 self.viol.append(("C04", msg))
                 self.viol.append(("C14", msg))
+        # C15: at no time more idle connections for one origin than max_idle_per_host
+        for tok in (1, 2):
+            n_idle = len(idle_conns(self.inner, tok))
+            if n_idle > self.max_idle and not getattr(self, "c15_reported", False):
+                self.c15_reported = True
+                self.viol.append(("C15", f"{n_idle} idle connections are kept for one origin although max_idle_per_host is {self.max_idle}"))
         # a non-shareable connection is in at most one place
         for cid, conn in self.conns.items():
             if conn.share:
@@ -435,6 +443,10 @@ def scenario_of(cont):
             protos = [a[1] for a in issues]
             if any(a[0] == "cancel" and a[1] < len(protos) and protos[a[1]] == "h2" for a in tr):
                 scn["abandon"] = "h2"
+        if w is not None and w.cont and any(k.state == "dropped" for k in w.dials_started):
+            return {"family": "pool_bg_attempt", "cont": 1, "schedule": str(tr)}
+        if w is not None and not w.cont and any(t["kind"] == "delayed" for t in w.bg):
+            return {"family": "pool_bg_attempt", "cont": 0, "schedule": str(tr)}
         if w is not None and any("was dropped when it was released" in msg for _c, msg in w.viol):
             scn["family"], scn["chain"] = "pool_preempt", 1
             return scn
@@ -446,9 +458,20 @@ def scenario_of(cont):
     return ex
 
 
+def judge_bg(scn, out):
+    """second clause of C14: with continue_after_preemption the abandoned attempt's connection is in the pool
+    afterwards (no further dial for two overlapping requests), without it nothing is left (one further dial)"""
+    if "extra_dials" not in out:
+        return None
+    extra = int(out["extra_dials"])
+    return extra > 0 if str(scn.get("cont")) == "1" else extra == 0
+
+
 def judge_sched(scn, out):
     if out.get("result", "").startswith(("panic", "crash")):
         return True
+    if scn.get("family") == "pool_bg_attempt":
+        return judge_bg(scn, out)
     claim = scn.get("claim", "")
     if "was dropped when it was released" in claim:
         return out.get("r2") == "timeout" or out.get("r1") == "timeout"
@@ -515,6 +538,16 @@ def obligations(prog, src, tier, seed, which="C03", n_req=2, depth=5, classes=("
             if prop in classes:
                 props.append((f"[{prop}] {msg}  -- schedule: {w.trace}", False))
         stranded = [r["i"] for r in w.reqs if r["state"] == "active"]
+        if "C14" in classes:
+            # second clause of C14: what becomes of an attempt whose request was pre-empted or cancelled
+            if w.cont:
+                for k in w.dials_started:
+                    if k.state == "dropped":
+                        props.append((f"[C14] continue_after_preemption is on, yet the connection attempt of request {k.req} was dropped when the request was pre-empted / cancelled instead of completing in the background  -- schedule: {w.trace}", False))
+            else:
+                for t in w.bg:
+                    if t["kind"] == "delayed":
+                        props.append((f"[C14] continue_after_preemption is off, yet an abandoned attempt was kept running in the background  -- schedule: {w.trace}", False))
         if "C03" in classes:
             props.append((f"[C03] request(s) {stranded} never obtain a connection or an error although every dial has completed and no task is runnable -- schedule: {w.trace}", not stranded))
         props.append(("pool mutex left locked", not w.shared.locked and not w.keys.locked))
@@ -559,6 +592,17 @@ def obligations(prog, src, tier, seed, which="C03", n_req=2, depth=5, classes=("
             w.poll(0)
             return w
 
+        def extract_preempt(p, m):
+            w = p.value if p.outcome != "panic" else None
+            cont = p.ctx.cfg[0]
+            if w is not None:
+                own = [k for k in w.dials_started if k.req == 0]
+                r = w.reqs[0]
+                served = r["state"] == "holding" and r.get("conn") is not None and r["conn"].cid == 50
+                if served and own and ((cont and own[0].state == "dropped") or (not cont and any(t["kind"] == "delayed" for t in w.bg))):
+                    return {"family": "pool_bg_attempt", "cont": int(cont)}
+            return dict({"family": "pool_preempt", "cont": int(cont)}, **({"abandon": p.ctx.cfg[3]} if p.ctx.cfg[3] != "none" else {}))
+
         def check_preempt(p):
             if p.outcome == "panic":
                 return [("pool protocol panics / deadlocks: " + str(p.value)[:100], False)]
@@ -566,7 +610,14 @@ def obligations(prog, src, tier, seed, which="C03", n_req=2, depth=5, classes=("
             r = w.reqs[0]
             cont, polls_before, proto, abandon, abandon_polled = p.ctx.cfg
             got = r.get("conn").cid if r["state"] == "holding" and r.get("conn") is not None else None
-            return [(f"[C14] a request still waiting for its own dial (polled {polls_before}x before) was not served by the connection released for its origin at its next poll (state {r['state']}, connection {got}; {proto} request, continue_after_preemption={cont}, abandoned attempt meanwhile: {abandon}{' (polled)' if abandon_polled else ''})", got == 50),
+            fate = []
+            own = [k for k in w.dials_started if k.req == 0]
+            if own:
+                if cont:
+                    fate.append((f"[C14] continue_after_preemption is on, yet the pre-empted request's own attempt was dropped instead of continuing in the background ({proto} request, polled {polls_before}x)", own[0].state != "dropped"))
+                else:
+                    fate.append((f"[C14] continue_after_preemption is off, yet the pre-empted request's own attempt was kept ({proto} request)", own[0].state == "dropped" and not any(t["kind"] == "delayed" for t in w.bg)))
+            return fate + [(f"[C14] a request still waiting for its own dial (polled {polls_before}x before) was not served by the connection released for its origin at its next poll (state {r['state']}, connection {got}; {proto} request, continue_after_preemption={cont}, abandoned attempt meanwhile: {abandon}{' (polled)' if abandon_polled else ''})", got == 50),
                     ("witness:reach", z3.BoolVal(True))]
 
         obs.append({"name": f"{which.lower()}_preempt_by_released_connection", "family": "pool_preempt",
@@ -574,8 +625,8 @@ def obligations(prog, src, tier, seed, which="C03", n_req=2, depth=5, classes=("
                     "bound": "one request (HTTP/1.1 or HTTP/2) dialing its own connection, polled 0, 1 or 2 times while the dial is pending; optionally a second request (HTTP/1.1 or HTTP/2, polled or not) is issued and cancelled; then an open connection for its origin is released; then one more poll; both continue_after_preemption settings",
                     "doc": "the waiting request takes the released connection no later than its next poll, however often it was polled before",
                     "run": run_preempt, "check": check_preempt, "crosscheck": False,
-                    "cex_extract": lambda p, m: dict({"family": "pool_preempt", "cont": int(p.ctx.cfg[0])}, **({"abandon": p.ctx.cfg[3]} if p.ctx.cfg[3] != "none" else {})),
-                    "judge": lambda scn, out: out.get("result", "").startswith(("panic", "crash")) or out.get("r1") == "timeout"})
+                    "cex_extract": extract_preempt,
+                    "judge": lambda scn, out: out.get("result", "").startswith(("panic", "crash")) or (judge_bg(scn, out) if scn.get("family") == "pool_bg_attempt" else out.get("r1") == "timeout")})
     if "C14" in classes or "C04" in classes:
         def run_chain(ctx):
             cont = ctx.choose([(True, False), (True, True)], "continue_after_preemption")
@@ -668,7 +719,8 @@ def obligations(prog, src, tier, seed, which="C03", n_req=2, depth=5, classes=("
         def run_timed_out(ctx):
             cont = ctx.choose([(True, False), (True, True)], "continue_after_preemption")
             proto = ctx.choose([(True, "h1"), (True, "h2")], "protocol of the request that times out")
-            stage = ctx.choose([(True, "own dial, never polled"), (True, "own dial, polled"), (True, "waiting on another request's dial")], "stage at expiry")
+            stage = ctx.choose([(True, "own dial, never polled"), (True, "own dial, polled"), (True, "waiting on another request's dial"),
+                                (True, "exchange in flight on its connection while another request is dialing")], "stage at expiry")
             bg_first = ctx.choose([(True, False), (True, True)], "background continuation runs before the dial completes")
             outcome = ctx.choose([(True, "ok"), (True, "err")], "outcome of the dial that was in flight")
             probe = ctx.choose([(True, "h1"), (True, "h2")], "protocol of the next request")
@@ -677,6 +729,29 @@ def obligations(prog, src, tier, seed, which="C03", n_req=2, depth=5, classes=("
             w = World(ctx, fns, cont)
             ctx.world = w
             ctx.cfg = (cont, proto, stage, bg_first, outcome, probe)
+            if stage.startswith("exchange"):
+                # the victim holds a connection and is waiting for its response; a second request is still dialing.
+                # At expiry the exchange is dropped: an HTTP/1.1 connection is closed by that (hyper cancels the
+                # dispatch), an HTTP/2 connection only loses the stream
+                w.apply(("issue", proto, 10))
+                w.apply(("poll", 0))
+                w.apply(("dial", 0, "ok"))
+                w.apply(("poll", 0))
+                if w.reqs[0]["state"] != "holding":
+                    raise Inconclusive("the first request did not obtain its connection")
+                w.apply(("issue", probe, 10))
+                w.apply(("poll", 1))
+                w.apply(("release", 0, proto == "h1"))
+                for j, t in enumerate(w.bg):
+                    if not t["done"] and ("bg", j) in w.woken:
+                        w.apply(("bg", j))
+                for n, k in enumerate(w.dials_started):
+                    if k.state == "dialing" and k.outcome is None:
+                        w.apply(("dial", n, outcome))
+                w.drain()
+                w.apply(("issue", probe, 10))
+                w.drain()
+                return w
             if stage.startswith("waiting"):
                 w.apply(("issue", "h2", 10))
                 w.apply(("poll", 0))
@@ -705,12 +780,16 @@ def obligations(prog, src, tier, seed, which="C03", n_req=2, depth=5, classes=("
                 return [("pool protocol panics / deadlocks: " + str(p.value)[:100], False)]
             w = p.value
             stranded = [r["i"] for r in w.reqs if r["state"] == "active"]
+            inherited = [msg for tag, msg in w.viol if tag == "C05"]
             return [(f"[C19] after a request timed out ({p.ctx.cfg[2]}; {p.ctx.cfg[1]}; continue_after_preemption={p.ctx.cfg[0]}; its dial then {p.ctx.cfg[4]}) request(s) {stranded} to the same origin never complete -- schedule: {w.trace}", not stranded),
+                    (f"[C19] another request to the same origin inherits the connection the timed-out request left closed ({'; '.join(inherited)[:200]}) -- schedule: {w.trace}", not inherited),
                     ("pool mutex left locked", not w.shared.locked and not w.keys.locked),
                     ("witness:reach", z3.BoolVal(True))]
 
         def ex_timed_out(p, m):
             cont, proto, stage, bg_first, outcome, probe = p.ctx.cfg
+            if stage.startswith("exchange"):
+                return {"family": "pool_timeout_inflight", "how": "timeout", "note": f"victim {proto}, second request {probe}; the replay uses HTTP/1.1 for both"}
             scn = {"family": "pool_stranded_waiter", "cont": int(cont), "how": "cancel+dial_err" if outcome == "err" else "cancel", "r1_when": "after", "r1": probe}
             if stage.startswith("waiting"):
                 scn.update({"cancel_who": "r1", "r0": "h2"})
@@ -720,11 +799,133 @@ def obligations(prog, src, tier, seed, which="C03", n_req=2, depth=5, classes=("
 
         obs.append({"name": f"{which.lower()}_timed_out_request_leaves_pool_usable", "family": "pool_timeout_cleanup",
                     "funcs": ["client::pool::Pool::checkout", "<Checkout as Future>::poll", "<Checkout as PinnedDrop>::drop", "client::pool::checkout::Checkout::as_delayed", "client::pool::PoolInner::cancel_connection"],
-                    "bound": "one request (HTTP/1.1 or HTTP/2) dropped while waiting for its own dial (polled or not) or for another request's dial; the background continuation runs before or after the dial completes; the dial succeeds or fails; then one fresh request (either protocol) and a drain; both continue_after_preemption settings",
+                    "bound": "one request (HTTP/1.1 or HTTP/2) dropped while waiting for its own dial (polled or not), for another request's dial, or while its exchange is in flight on its connection and a second request is dialing; the background continuation runs before or after the dial completes; the dial succeeds or fails; then one fresh request (either protocol) and a drain; both continue_after_preemption settings",
                     "doc": "dropping the inner request future at expiry never leaves the pool unable to serve the origin: the next request completes (with a connection or an error)",
                     "run": run_timed_out, "check": check_timed_out, "crosscheck": False, "loop_bound": 12,
                     "cex_extract": ex_timed_out,
-                    "judge": lambda scn, out: out.get("result", "").startswith(("panic", "crash")) or out.get("r1") == "timeout"})
+                    "judge": lambda scn, out: out.get("result", "").startswith(("panic", "crash")) or (out.get("b") != "200" if scn.get("family") == "pool_timeout_inflight" else out.get("r1") == "timeout")})
+        return obs
+    if "C03" in classes:
+        def run_preempted_owner(ctx):
+            cont = ctx.choose([(True, False), (True, True)], "continue_after_preemption")
+            b_polled = ctx.choose([(True, True), (True, False)], "owner polled before the release")
+            c_proto = ctx.choose([(True, "h2"), (True, "h1")], "protocol of the following request")
+            c_polled = ctx.choose([(True, True), (True, False)], "following request polled before the release")
+            outcome = ctx.choose([(True, "err"), (True, "ok")], "outcome of the owner's own attempt (when it continues)")
+            ctx.drop_impls = drop_impls
+            ctx.now = z3.IntVal(0)
+            w = World(ctx, fns, cont)
+            ctx.world = w
+            ctx.cfg = (cont, b_polled, c_proto, c_polled, outcome)
+            # A (HTTP/1.1) holds a connection of its own
+            w.apply(("issue", "h1", 10))
+            w.apply(("poll", 0))
+            w.apply(("dial", 0, "ok"))
+            w.apply(("poll", 0))
+            # B (HTTP/2) owns the in-flight attempt, C follows it
+            w.apply(("issue", "h2", 10))
+            if b_polled:
+                w.apply(("poll", 1))
+            w.apply(("issue", c_proto, 10))
+            if c_polled:
+                w.apply(("poll", 2))
+            # A finishes: its connection pre-empts B's attempt
+            w.apply(("release", 0, False))
+            w.drain_tasks()
+            # whatever is left of B's attempt terminates
+            for n, k in enumerate(w.dials_started):
+                if k.state == "dialing" and k.outcome is None:
+                    w.apply(("dial", n, outcome))
+            w.drain_tasks()
+            return w
+
+        def check_preempted_owner(p):
+            if p.outcome == "panic":
+                return [("pool protocol panics / deadlocks: " + str(p.value)[:100], False)]
+            w = p.value
+            stranded = [r["i"] for r in w.reqs if r["state"] == "active"]
+            return [(f"[C03] request(s) {stranded} that followed an HTTP/2 attempt are left waiting for ever after the attempt's owner was served by a released connection and the attempt itself was abandoned / failed (configuration {p.ctx.cfg}; states {[(r['i'], r['state']) for r in w.reqs]})", not stranded),
+                    ("pool mutex left locked", not w.shared.locked and not w.keys.locked),
+                    ("witness:reach", z3.BoolVal(True))]
+
+        obs.append({"name": f"{which.lower()}_preempted_owner_releases_followers", "family": "pool_preempted_owner",
+                    "funcs": ["client::pool::Pool::checkout", "<Checkout as Future>::poll", "<Checkout as PinnedDrop>::drop", "client::pool::PoolInner::{push,cancel_connection}", "<Pooled as Drop>::drop", "<WhenReady as Drop>::drop"],
+                    "bound": "request A (HTTP/1.1) holds a connection; B (HTTP/2) owns an in-flight attempt (polled or not); C (either protocol, polled or not) follows it; A releases, B is served by that connection; B's own attempt is dropped or continues and then fails / succeeds; both continue_after_preemption settings",
+                    "doc": "a request that follows an attempt is released (connection or error) also when the attempt's owner is pre-empted by a released connection",
+                    "run": run_preempted_owner, "check": check_preempted_owner, "crosscheck": False, "loop_bound": 12,
+                    "cex_extract": lambda p, m: {"family": "pool_preempted_owner", "cont": int(p.ctx.cfg[0]), "c": p.ctx.cfg[2]},
+                    "judge": lambda scn, out: out.get("result", "").startswith(("panic", "crash")) or out.get("rc") == "timeout"})
+    if "C15" in classes:
+        d15 = 4 if tier == "quick" else 5
+
+        def run_idle_limit(ctx):
+            cont = ctx.choose([(True, False), (True, True)], "continue_after_preemption")
+            max_idle = ctx.choose([(True, 0), (True, 1), (True, 2)], "max_idle_per_host")
+            ctx.drop_impls = drop_impls
+            ctx.now = z3.IntVal(0)
+            w = World(ctx, fns, cont, max_idle=max_idle)
+            ctx.world = w
+            ctx.cfg = (cont, max_idle)
+            # max_idle + 1 HTTP/1.1 requests in flight together, each on its own connection ...
+            k = max_idle + 1
+            for i in range(k):
+                w.apply(("issue", "h1", 10))
+                w.apply(("poll", i))
+            for i in range(k):
+                w.apply(("dial", i, "ok"))
+                w.apply(("poll", i))
+            if any(r["state"] != "holding" for r in w.reqs):
+                raise Inconclusive("set-up: a request did not obtain its connection")
+            # ... max_idle of them are released: the idle list is full, one request still holds its connection
+            for i in range(max_idle):
+                w.apply(("release", i, False))
+                w.drain_tasks()
+            w.setup_len = len(w.trace)
+            # from there every schedule of d15 actions with up to two more requests
+            for step in range(d15):
+                acts = [a for a in w.enabled(k + 2, ("h1",), (10,)) if not (a[0] == "dial" and a[2] == "err")]
+                if not acts:
+                    break
+                sv = z3.Int(f"sched_step_{step}")
+                a = ctx.choose([(sv == i, x) for i, x in enumerate(acts)], "action")
+                w.apply(a)
+            w.drain()
+            return w
+
+        def check_idle_limit(p):
+            if p.outcome == "panic":
+                return [("pool protocol panics / deadlocks: " + str(p.value)[:100], False)]
+            w = p.value
+            props = [(f"[C15] {msg} (continue_after_preemption={p.ctx.cfg[0]}) -- schedule after the set-up: {w.trace[w.setup_len:]}", False) for tag, msg in w.viol if tag == "C15"]
+            return props + [("pool mutex left locked", not w.shared.locked and not w.keys.locked), ("witness:reach", z3.BoolVal(True))]
+
+        def ex_idle_limit(p, m):
+            w = p.value if p.outcome != "panic" else None
+            tr = w.trace[w.setup_len:] if w is not None else []
+            held = [a[1] for a in tr if a[0] == "issue"]
+            scn = {"family": "pool_idle_limit", "max_idle": p.ctx.cfg[1], "schedule": str(tr)}
+            # the replayable shape: a request created (it takes an idle connection) but never polled, dropped after another release
+            issued = [n for n, a in enumerate(tr) if a[0] == "issue"]
+            cancels = [n for n, a in enumerate(tr) if a[0] == "cancel"]
+            polls = [a[1] for a in tr if a[0] == "poll"]
+            if issued and cancels and not any(x >= p.ctx.cfg[1] + 1 for x in polls):
+                scn["parked"] = 1
+            return scn
+
+        def judge_idle_limit(scn, out):
+            if out.get("result", "").startswith(("panic", "crash")):
+                return True
+            if "idle_after" not in out:
+                return None
+            return int(out["idle_after"]) > int(scn["max_idle"])
+
+        obs.append({"name": f"{which.lower()}_idle_limit_under_schedules", "family": "pool_idle_limit",
+                    "funcs": ["client::pool::Pool::checkout", "<Checkout as Future>::poll", "<Checkout as PinnedDrop>::drop", "<Pooled as Drop>::drop", "<WhenReady as Future>::poll", "<WhenReady as Drop>::drop", "client::pool::PoolInner::{push,pop}", "client::pool::checkout::register_connected"],
+                    "bound": f"max_idle_per_host in {{0,1,2}}; set-up: max_idle+1 HTTP/1.1 requests each on its own connection, max_idle of them released (idle list full), one still in flight; then every schedule of {d15} actions from {{issue (up to 2 more requests), poll if woken, cancel, dial completes, release open/closed, run background task}}, then a drain; the limit is checked after every action; both continue_after_preemption settings",
+                    "doc": "at no point of any schedule does the pool hold more idle connections for the origin than max_idle_per_host, whichever code path puts a connection back",
+                    "run": run_idle_limit, "check": check_idle_limit, "crosscheck": False, "max_paths": 400000, "loop_bound": 12,
+                    "cex_extract": ex_idle_limit, "judge": judge_idle_limit})
+    if classes == ("C15",):
         return obs
     configs = [("cont_off", False), ("cont_on", True)]
     for name, cont in configs:
